@@ -76,6 +76,25 @@ theorem circGap_reflect (l : List α) (hl : ∀ φ ∈ l, 0 ≤ φ ∧ φ < 1) :
 theorem circGap_rotate (c : α) (l : List α) (hl : ∀ φ ∈ l, 0 ≤ φ ∧ φ < 1) :
     circGap (l.map (rot c)) = circGap l := circGap_rotate' c l hl
 
+/-- the arcs of the definition make up the whole circle: they sum to 1, for any number of observations ≥ 1 -/
+theorem circGaps_total (l : List α) (h : l ≠ []) : (circGaps (isort l)).sum = 1 :=
+  circGaps_sum (fun h0 => h (isort_eq_nil.mp h0))
+
+/-- bounds: with `n ≥ 1` observations the largest empty arc is at least `1/n` of the circle (pigeonhole) and at most
+the whole circle -/
+theorem circGap_bounds (l : List α) (hl : ∀ φ ∈ l, 0 ≤ φ ∧ φ < 1) (g : α) (hg : circGap l = some g) :
+    1 ≤ (l.length : α) * g ∧ g ≤ 1 := circGap_bounds' l hl g hg
+
+/-- a single observation leaves the whole circle empty: the gap is exactly 1 -/
+theorem circGap_single (φ : α) (hφ : 0 ≤ φ ∧ φ < 1) : circGap [φ] = some 1 := by
+  obtain ⟨g, hg⟩ : ∃ g, circGap [φ] = some g := by
+    cases h : circGap [φ] with
+    | none => exact absurd (circGap_eq_none_iff.mp h) (by simp)
+    | some g => exact ⟨g, rfl⟩
+  have hb := circGap_bounds [φ] (by intro x hx; simp at hx; subst hx; exact hφ) g hg
+  simp at hb
+  rw [hg, le_antisymm hb.2 hb.1]
+
 /-! ## phase_coverage -/
 
 /-- `phase_coverage` = number of occupied bins / number of bins -/
@@ -186,6 +205,9 @@ example : circGap ([1/10, 0, 1/5] : List ℚ) = some (4/5) := by
 example : maxPhaseGap ([1/10, 0, 1/5] : List ℚ) = some (4/5) := by
   rw [maxPhaseGap_eq_circGap, circGap_is_largest_arc _ 0 [1/10, 1/5] (by norm_num [isort, ins])]
   norm_num [gaps]
+-- the three arcs of that pattern are 0.1, 0.1, 0.8: total 1, largest ≥ 1/3
+example : (circGaps (isort ([1/10, 0, 1/5] : List ℚ))).sum = 1 := circGaps_total _ (by simp)
+example : (1 : ℚ) ≤ (([1/10, 0, 1/5] : List ℚ).length : ℚ) * (4/5) ∧ (4/5 : ℚ) ≤ 1 := by norm_num
 -- … while the pinned formula answers 0.1
 example : maxPhaseGapPinned ([1/10, 0, 1/5] : List ℚ) = some (1/10) := by
   rw [maxPhaseGapPinned_misses_wrap _ 0 [1/10, 1/5] (by norm_num [isort, ins]), maxList_eq_some_iff]
